@@ -61,8 +61,10 @@ Add == Room /\ Mode = "calls" /\ \E i \in AddPool :
           Do([ev |-> "add", item |-> i], [op |-> "add", item |-> i])
 Remove == Room /\ Mode = "calls" /\ \E t \in RmTypes :
           Do([ev |-> "remove", t |-> t], [op |-> "remove", t |-> t])
-RemoveKeyed == Room /\ Mode = "calls" /\ \E t \in {"S0", "S1"} :
-          Do([ev |-> "removekeyed", t |-> t, k |-> "k"], [op |-> "removekeyed", t |-> t, k |-> "k"])
+\* keys: the name "k", and the INTEGER 1 (written "#1": nothing is registered under it - positions inside a group
+\* are not keys)
+RemoveKeyed == Room /\ Mode = "calls" /\ \E t \in {"S0", "S1"}, k \in {"k", "#1"} :
+          Do([ev |-> "removekeyed", t |-> t, k |-> k], [op |-> "removekeyed", t |-> t, k |-> k])
 LastOp == IF hist = <<>> THEN "-" ELSE hist[Len(hist)].op
 Build == Room /\ Mode = "calls" /\ Len(rs.snaps) < 2 /\ LastOp # "build"
           /\ Do([ev |-> "built"], [op |-> "build"])
